@@ -33,6 +33,33 @@ def compare(h1, hk):
     return d, None
 
 
+def coincidence_breaks(T, k, nupd):
+    """Does rounding of the scaled partition (t = j fl(T / k), midpoints; mapped back by fl(t k) / T) move one of the three
+    sample points of some update off the exact zeros w = 0, 1/2, 1 of the zone profile of MT.make_coincident?  Then the
+    velocity gradients sampled at start / midpoint / end coincide exactly at rate 1 but not at rate k."""
+    dt, t = T / k, 0.0
+    for _ in range(nupd):
+        for tt in (t, (t + (t + dt)) / 2, t + dt):
+            u = (tt * k) / T
+            if MT._zone(u - np.floor(u)) != 0.0:
+                return True
+        t += dt
+    return False
+
+
+def coincident_plan(rng, tier):
+    """(scenario, rates): every coincident-sample flow family at rate 1 and at three other rates; for the families whose
+    coincidence is exact only where the partition maps back exactly (pulse, zones) rates at which it does NOT come first"""
+    plan = []
+    for sc in MT.coincident_scenarios(rng, tier, regimes=(4, 6, 4, 0), nmax=8):
+        ks = [k for k in KS if k != 1.0]
+        ks = [ks[j] for j in rng.permutation(len(ks))]
+        if sc["lkind"] in ("pulse", "zones"):
+            ks.sort(key=lambda k: not coincidence_breaks(sc["period"], k, sc["nupd"]))
+        plan.append((sc, ks[:3]))
+    return plan
+
+
 def run(chk):
     ok, br = proofs.prove(chk, FILES, PROP, groups=("core",), gen_modules=MT.GLUE_TIE_GEN)
     chk.cov["trusted_base"] = common.TRUSTED_COMMON + [MT.GLUE_TIE_TRUSTED,
@@ -42,7 +69,9 @@ def run(chk):
     ]
     chk.cov["rule"] = ("paired histories: the same scenario at rate 1 and at rate k in {1e-16,1e-15,1e-12,1e-8,1e-4,10,1e3} (velocity gradient x k, times / k, "
                        "pathline x(k t)); flows incl. time- and position-dependent; regimes 4, 6 and the null regimes; stored textures and returned F compared "
-                       "(alarm at the solver tolerance 1e-6, maximum reported); every update also trace-validated against the model; non-trivial = texture changed")
+                       "(alarm at the solver tolerance 1e-6, maximum reported); enstatite in both dislocation regimes at k = 1e-16, 2^-50, 1e-15 (absolute slip threshold 1e-15); flows whose samples at start / midpoint / end of every update coincide exactly at rate 1 "
+                       "(cosine periods, pulses, shear zones along the pathline, closed pathlines) at three more rates, preferring rates whose rounded partition breaks "
+                       "the coincidence; every update also trace-validated against the model; non-trivial = texture changed")
     bad, mon = [], []
     rng = np.random.default_rng(chk.seed)
     if br.drivers.get("core", 1) is None:
@@ -75,6 +104,69 @@ def run(chk):
                     worst = max(worst, d)
                     if msg or d > TOL:
                         mon.append((sc, k, msg or f"textures / deformation gradient at rate k = {k:g} differ from rate 1 by {d:.3e} (> {TOL:g})"))
+            # enstatite at geological rates: its single slip system is switched by an ABSOLUTE threshold (|I| > 1e-15) written for the
+            # dimensionless strain rate; any dimensional quantity leaking into the kernel shows at k |D| <= 1e-15 and nowhere else
+            # (both dislocation regimes; k = 1e-16, 2^-50 ~ 8.9e-16 and 1e-15; own PRNG stream)
+            rnge = np.random.default_rng([chk.seed, 0xC05D])
+            eh = chk.cov.setdefault("enstatite_geological_rate_pairs", {})
+            for j in range(2 if chk.tier == "quick" else 12):
+                sc = MT.scenario(rnge, regime=int((4, 6)[j % 2]), pair=(1, 5), n=int(rnge.integers(3, 12)),
+                                 lkind=("simple", "general", "pure", "time", "axisym", "position")[j % 6], nupd=int(rnge.integers(1, 3)),
+                                 tkind=("random", "clustered")[j % 2], strain=float(rnge.uniform(0.3, 0.6)))
+                h1 = c01.run_history(rec, dict(sc, rate=1.0))
+                c01.validate_traces(chk, h1, bad)
+                if h1["fails"]:
+                    mon += [(sc, 1.0, m) for _, m in h1["fails"]]
+                    continue
+                for k in (1e-16, 2.0 ** -50, 1e-15):
+                    hk = c01.run_history(rec, dict(sc, rate=float(k)))
+                    c01.validate_traces(chk, hk, bad)
+                    hist[str(k)] = hist.get(str(k), 0) + 1
+                    eh[str(k)] = eh.get(str(k), 0) + 1
+                    if hk["fails"]:
+                        mon += [(sc, k, m) for _, m in hk["fails"]]
+                        continue
+                    d, msg = compare(h1, hk)
+                    worst = max(worst, d)
+                    if msg or d > TOL:
+                        mon.append((sc, k, msg or f"textures / deformation gradient at rate k = {k:g} differ from rate 1 by {d:.3e} (> {TOL:g})"))
+            # flows whose samples at the start, midpoint and end of every update coincide exactly (at rate 1) and that vary in between
+            cf = chk.cov.setdefault("coincident_flow_families", {})
+            for sc, ks in coincident_plan(np.random.default_rng([chk.seed, 0xC06D]), chk.tier):
+                h1 = c01.run_history(rec, dict(sc, rate=1.0))
+                c01.validate_traces(chk, h1, bad)
+                if h1["fails"]:
+                    mon += [(sc, 1.0, m) for _, m in h1["fails"]]
+                    continue
+                for k in ks:
+                    hk = c01.run_history(rec, dict(sc, rate=float(k)))
+                    c01.validate_traces(chk, hk, bad)
+                    hist[str(k)] = hist.get(str(k), 0) + 1
+                    key = sc["lkind"] + (":coincidence broken by rounding at rate k" if sc["lkind"] in ("pulse", "zones")
+                                         and coincidence_breaks(sc["period"], k, sc["nupd"]) else "")
+                    cf[key] = cf.get(key, 0) + 1
+                    if hk["fails"]:
+                        mon += [(sc, k, m) for _, m in hk["fails"]]
+                        continue
+                    d, msg = compare(h1, hk)
+                    worst = max(worst, d)
+                    if msg or d > TOL:
+                        mon.append((sc, k, msg or f"textures / deformation gradient at rate k = {k:g} differ from rate 1 by {d:.3e} (> {TOL:g})"))
+            # block-boundary grain counts: one paired run each (k = 1e-8), trace-validated
+            for sc in MT.block_scenarios(np.random.default_rng([chk.seed, 0xB10C]), chk.tier, regimes=(4, 6),
+                                         sizes=(64, 128, 129, 1024) if chk.tier == "quick" else None):
+                h1 = c01.run_history(rec, dict(sc, rate=1.0))
+                c01.validate_traces(chk, h1, bad)
+                hk = c01.run_history(rec, dict(sc, rate=1e-8))
+                c01.validate_traces(chk, hk, bad)
+                hist["1e-08"] = hist.get("1e-08", 0) + 1
+                if h1["fails"] or hk["fails"]:
+                    mon += [(sc, 1.0, m) for _, m in h1["fails"]] + [(sc, 1e-8, m) for _, m in hk["fails"]]
+                    continue
+                d, msg = compare(h1, hk)
+                worst = max(worst, d)
+                if msg or d > TOL:
+                    mon.append((sc, 1e-8, msg or f"textures / deformation gradient at rate k = 1e-08 differ from rate 1 by {d:.3e} (> {TOL:g})"))
         chk.cov["max_rate_dependence"] = worst
         chk.cov["traces_validated_against_impl"] = chk.cov["evaluations"]
     chk.cov["disagreements"] = len(bad)
